@@ -130,6 +130,8 @@ def run_design(ck, d, variants, stream, expect=None, exact=True, extra_instances
   ck.hist('model_stage', m['stage'][0])
   ck.hist('components', len(d.comps))
   for l in d.labels: ck.hist('defect', l[0].split(':')[0])
+  for t in d.tags: ck.hist('directed_shape', t)
+  ck.hist('slices_written_as_slice_of_slice', min(len(d.nest), 8))
 
 def variants_of(d, rng, k):
   return [d.variant_orders(rng, identity=(i == 0)) for i in range(k)]
